@@ -223,6 +223,14 @@ def real_checks(which):
         ok = abs(float(fp.m_i) - 2345.0) < 1e-9 and np.allclose(np.asarray(fp.pvt_props["alpha"]), a) and np.all((v >= a.min() * (1 - 1e-12)) & (v <= a.max() * (1 + 1e-12))) and list(t.keys()) == list(before.keys())
         if not ok:
             return {"reproduced": True, "input": {"table": "synthetic liquid", "p_i": 2345.0}, "observed": {"m_i": float(fp.m_i), "alpha lookups": v.tolist()}, "required": "m_i == p_i, alpha nodes 1/(c mu), lookups within range, caller's table unchanged"}
+        for p_out in (99.0, 5000.5, 6000.0, 10.0):
+            try:
+                mod.FlowPropertiesSimple({k: v.copy() for k, v in t.items()}, p_out)
+            except ValueError:
+                continue
+            except Exception as e:  # noqa: BLE001
+                return {"reproduced": True, "input": {"table": "synthetic liquid, 100..5000 psi", "p_i": p_out}, "observed": f"{type(e).__name__}: {e}", "required": "ValueError"}
+            return {"reproduced": True, "input": {"table": "synthetic liquid, 100..5000 psi", "p_i": p_out}, "observed": "constructed without error", "required": "ValueError (initial pressure outside the table)"}
     return {"reproduced": False}
 
 
@@ -249,11 +257,11 @@ def build(ctx):
 
     obs.append(Obligation("init.columns", "FlowProperties(table, p_i) raises ValueError when neither the long nor the short column set is present, and accepts either set", columns, [INIT], "SYMEX", rp("columns")))
 
-    def pi_outside():
+    def pi_outside(qf=INIT, clsname="FlowProperties", colsets=(LONG, SHORT)):
         v = None
         for kind in KINDS:
-            for cols in (LONG, SHORT):
-                outs = run_init(ctx, INIT, "FlowProperties", cols, kind)
+            for cols in colsets:
+                outs = run_init(ctx, qf, clsname, cols, kind)
                 x0, xl = col("pressure", tm.const(0)), col("pressure", tm.sub(n, tm.const(1)))
                 inside = tm.land(tm.le(x0, pi), tm.le(pi, xl))
                 goals = []
@@ -522,6 +530,7 @@ def build(ctx):
         return with_models(v, o)
 
     obs.append(Obligation("simple.mi_and_columns", "FlowPropertiesSimple: m-scaled is the pressure column, m_i == p_i, missing columns raise ValueError", simple, [SINIT], "SMT", rp("simple")))
+    obs.append(Obligation("simple.pi_outside_raises", "FlowPropertiesSimple(table, p_i) returns only for p_first <= p_i <= p_last and raises ValueError otherwise", lambda: pi_outside(SINIT, "FlowPropertiesSimple", (SIMPLE,)), [SINIT], "SMT", rp("simple")))
     obs.append(Obligation("simple.alpha_nodes", "FlowPropertiesSimple: alpha[j] == 1 / (compressibility[j] * viscosity[j])", alpha_nodes(SINIT, "FlowPropertiesSimple", SIMPLE), [SINIT], "CAS", rp("simple")))
     obs.append(Obligation("simple.alpha_range", "FlowPropertiesSimple: every lookup within [min alpha, max alpha], > 0", alpha_range(SINIT, "FlowPropertiesSimple", SIMPLE), [SINIT], "SMT", rp("simple")))
     obs.append(Obligation("simple.frame", "FlowPropertiesSimple.__init__ leaves the caller's table untouched", frame(SINIT, "FlowPropertiesSimple", (SIMPLE,)), [SINIT], "FRAME", rp("simple")))
